@@ -124,7 +124,7 @@ func TestC10(t *testing.T) {
 	}
 
 	// random: table entries with random letter case for command/option names, and longer tails before the corruption
-	h.Rapid("random", h.N(10000, 100000), func(rt *rapid.T) {
+	h.Rapid("random", h.N(10000, 600000), func(rt *rapid.T) {
 		ill := table[rapid.IntRange(0, len(table)-1).Draw(rt, "entry")]
 		c := illToCase(ill)
 		g := &cmdspec.G{T: rt}
